@@ -1681,7 +1681,7 @@ Proof.
       { destruct (m_body m) eqn:Eb; try (rewrite (Hcore _ D); lia).
         - destruct D as [D|D]; [rewrite (Hcore _ D); lia|].
           destruct (eps_pop_pending_output_fields ack_frame s) as (F1 & _). eps_core_inj D. rewrite C6.
-          eapply Hpop. symmetry. exact F1.
+          eapply Hpop. exact F1.
         - destruct D as [D|(t & D1 & D2)]; [rewrite (Hcore _ D); lia|].
           destruct (eps_on_checksum_report_effect _ _ _ _ _ D1) as (pcs & -> & _). fsimpl. rewrite (Hcore _ D2). lia. }
       split; [lia|]. intros Dd. split; [|exact L]. unfold eps_dead in *.
@@ -1793,7 +1793,6 @@ Proof.
     destruct (eps_input_exit_effect _ _ _ _ _ _ _ _ _ X) as (_&_&_&A4&A5&_).
     assert (Hhdr : forall s2, eps_header st dr af (eps_touch now s) = Ok s2 -> u_recv_inputs s2 = u_recv_inputs s).
     { intros s2 Eh. destruct (eps_header_touch _ _ _ _ _ _ Eh) as (Ho & _). apply Ho. }
-    cbn [eps_shaped]. rewrite Eb.
     destruct X as [ | |s2 Eh|s2 Eh|s2 ref Eh|s2 ref ins s4 Eh Hs El Ed Ea|s2 ref ins s4 w lo Eh Hs El Ed Ea Ew Elo].
     + apply Hsame. auto.
     + apply Hsame. split; [apply (eps_touch_fields now s)|auto].
@@ -1806,6 +1805,7 @@ Proof.
       destruct (decode_bounded eps_cap_ok _ _ _ _ Ed) as (_ & _ & Hn).
       change (u_recv_inputs (set_last_input_recv now s2)) with (u_recv_inputs s2) in F. rewrite (Hhdr _ Eh) in F.
       split; [lia|]. split; [exact A4|]. split; [exact A5|]. intros _ _ Hsh _. exfalso.
+      cbn [eps_shaped] in Hsh. rewrite Eb in Hsh.
       destruct (eps_accept_false _ _ _ _ _ _ Ea) as (pre & bad & post & fr & E1 & _ & _ & _ & E5).
       specialize (Hsh _ _ Ed). rewrite Forall_forall in Hsh. rewrite A4 in E5.
       apply (Hsh bad); [rewrite E1; apply in_app_iff; right; left; reflexivity|exact E5].
@@ -1818,7 +1818,7 @@ Proof.
         unfold aretain_ge. unfold ibytes in *. lia. }
       split; [exact A4|]. split; [exact A5|]. intros (_ & _ & R) Hw _ Hb.
       set (s3 := set_last_input_recv now s2) in *.
-      assert (Hok3 : eps_ri_ok s3) by (eapply eps_ri_ok_ext; [|exact (R Hw)]; apply Hhdr; exact Eh).
+      assert (Hok3 : eps_ri_ok s3) by (eapply eps_ri_ok_ext; [|exact (R Hw)]; exact (Hhdr _ Eh)).
       assert (Emp : u_max_prediction s3 = u_max_prediction s).
       { destruct (eps_header_touch _ _ _ _ _ _ Eh) as (Ho & _). apply Ho. }
       assert (Hw3 : eps_window_ok s3) by (unfold eps_window_ok in *; rewrite Emp; exact Hw).
@@ -1837,3 +1837,377 @@ Proof.
     destruct (ts_update_local_frame_advantage _ _ _ _ _ _); inversion H; subst. apply Hsame. auto.
   - inversion H; subst; clear H. apply Hsame. auto.
 Qed.
+
+Lemma eps_recv_inputs_run : forall dbg ops s s' evs,
+  run dbg s ops = Ok (s', evs) -> eps_inv s -> eps_window_ok s ->
+  Forall (eps_shaped dbg (length (u_handles s))) ops ->
+  Z.of_nat (length (u_recv_inputs s)) <= eps_ri_bound s ->
+  Z.of_nat (length (u_recv_inputs s')) <= eps_ri_bound s.
+Proof.
+  induction ops as [|o r IH]; intros s s' evs H HI Hw Hsh Hb.
+  - inversion H; subst. exact Hb.
+  - apply eps_run_cons in H. destruct H as (s1 & e1 & e2 & H1 & H2 & _).
+    inversion Hsh as [|? ? Ho Hr]; subst.
+    destruct (eps_recv_inputs_step _ _ _ _ _ H1) as (_ & A & B & C).
+    assert (Eb : eps_ri_bound s1 = eps_ri_bound s) by (unfold eps_ri_bound; rewrite B; reflexivity).
+    rewrite <- Eb. eapply IH; [exact H2|eapply eps_inv_step; eauto| | |].
+    + unfold eps_window_ok in *. rewrite B. exact Hw.
+    + rewrite A. exact Hr.
+    + rewrite Eb. apply C; assumption.
+Qed.
+
+(* for every reachable state, under traffic without wrong-size frames and a sane window *)
+Lemma eps_recv_inputs_bounded : forall now magic handles np lp mp timeout notify fps desync dbg ops s evs,
+  0 <= mp <= EPS_MAX_WINDOW ->
+  let s0 := ep_new now magic handles np lp mp timeout notify fps desync in
+  Forall (eps_shaped dbg (length (u_handles s0))) ops ->
+  run dbg s0 ops = Ok (s, evs) ->
+  Z.of_nat (length (u_recv_inputs s)) <= Z.max (2 * mp) (Z.of_N MAX_DECODED_INPUTS) + 1.
+Proof.
+  intros now magic handles np lp mp timeout notify fps desync dbg ops s evs Hm s0 Hsh H.
+  change (Z.max (2 * mp) (Z.of_N MAX_DECODED_INPUTS) + 1) with (eps_ri_bound s0).
+  eapply eps_recv_inputs_run; [exact H|apply eps_inv_new|exact Hm|exact Hsh|].
+  unfold eps_ri_bound. cbn. unfold MAX_DECODED_INPUTS. lia.
+Qed.
+
+(* forged by the authorized peer: packets that end in a wrong-size frame are never pruned.
+   Window 0; 20 packets of [good; good; 3 bytes], each starting at last_recv_frame + 1: 41 entries *)
+Definition eps_w_new0 : ep := ep_new 0 9 [1] 2 1 0 2000 500 60 None.
+Definition eps_w_bad_packet (k : nat) : op :=
+  OMessage 0 200 (mkMsg 7 (Input w_status false (2 * Z.of_nat k) (-1)
+     (Codec.encode (match k with O => [0;0;0;0]%N | _ => [1;0;0;0]%N end) [[1;0;0;0]%N; [1;0;0;0]%N; [7;7;7]%N]))).
+Definition eps_w_grow : list op := w_handshake ++ map eps_w_bad_packet (seq 0 20).
+Lemma eps_recv_inputs_unbounded_refuted :
+  exists s evs, run true eps_w_new0 eps_w_grow = Ok (s, evs) /\
+    length (u_recv_inputs s) = 41%nat /\ last_recv_frame s = 39 /\ u_max_prediction s = 0 /\ u_send_queue s <> [].
+Proof. eexists. eexists. split; [vm_compute; reflexivity|]. repeat split; vm_compute; try reflexivity. discriminate. Qed.
+
+(* ---------- pending_checksums ---------- *)
+Definition eps_interval (s : ep) : Z := match u_desync s with Some i => i | None => 1 end.
+Definition EPS_MAX_INTERVAL : Z := 67108864.   (* 2^26: 31 * interval stays an i32 *)
+
+(* reports arrive in order: the frame of each handled report is non-negative and not below any stored frame *)
+Fixpoint eps_reports_in_order (dbg : bool) (s : ep) (ops : list op) : Prop :=
+  match ops with
+  | [] => True
+  | o :: r =>
+    match o with
+    | OMessage _ _ m =>
+      match m_body m with
+      | ChecksumReport _ f => 0 <= f <= TS_I32_MAX /\ Forall (fun k => k <= f) (eps_keys (u_pending_checksums s))
+      | _ => True
+      end
+    | _ => True
+    end /\
+    match step dbg o s with
+    | Ok (s1, _) => eps_reports_in_order dbg s1 r
+    | _ => True
+    end
+  end.
+
+Definition eps_pcs_ok (s : ep) : Prop :=
+  NoDup (eps_keys (u_pending_checksums s)) /\
+  Z.of_nat (length (u_pending_checksums s)) <= Z.max MAX_CHECKSUM_HISTORY_SIZE (31 * eps_interval s + 1).
+
+Lemma eps_pcs_step : forall dbg o s s' out, step dbg o s = Ok (s', out) ->
+  u_desync s' = u_desync s /\
+  (Z.of_nat (length (u_pending_checksums s')) <= Z.of_nat (length (u_pending_checksums s)) + 1) /\
+  (1 <= eps_interval s <= EPS_MAX_INTERVAL ->
+   match o with
+   | OMessage _ _ m =>
+     match m_body m with
+     | ChecksumReport _ f => 0 <= f <= TS_I32_MAX /\ Forall (fun k => k <= f) (eps_keys (u_pending_checksums s))
+     | _ => True
+     end
+   | _ => True
+   end -> eps_pcs_ok s -> eps_pcs_ok s').
+Proof.
+  intros dbg o s s' out H.
+  assert (Hsame : forall t, u_pending_checksums t = u_pending_checksums s -> u_desync t = u_desync s ->
+     forall P : Prop, u_desync t = u_desync s /\
+     (Z.of_nat (length (u_pending_checksums t)) <= Z.of_nat (length (u_pending_checksums s)) + 1) /\
+     (1 <= eps_interval s <= EPS_MAX_INTERVAL -> P -> eps_pcs_ok s -> eps_pcs_ok t)).
+  { intros t A B P. split; [exact B|]. split; [rewrite A; lia|]. intros _ _ X. unfold eps_pcs_ok, eps_interval in *.
+    rewrite A, B. exact X. }
+  assert (Hcore : forall t, eps_core t = eps_core s ->
+            u_pending_checksums t = u_pending_checksums s /\ u_desync t = u_desync s)
+    by (intros t X; eps_core_inj X; auto).
+  destruct o as [now nonce|now nonce m|now nonce cs|now inputs cs|now|now fr ck|lf|]; eps_unstep H.
+  - destruct (synchronize now nonce s) as [t| |] eqn:E; inversion H; subst; clear H.
+    apply eps_synchronize_effect in E. destruct E as (A & _). destruct (Hcore _ A). apply Hsame; assumption.
+  - destruct (handle_message dbg now nonce m s) as [t| |] eqn:E; inversion H; subst; clear H.
+    destruct (eps_input_body_dec m) as [(st & dr & sf & af & bytes & Eb)|Hn].
+    { pose proof (eps_input_exits _ _ _ _ _ _ _ _ _ _ _ Eb E) as X.
+      destruct (eps_input_exit_effect _ _ _ _ _ _ _ _ _ X) as (_&_&_&_&_&A6&_&_&A9&_). rewrite Eb.
+      apply Hsame; assumption. }
+    destruct (eps_handle_other_effect _ _ _ _ _ _ Hn E) as (_ & _ & _ & D).
+    destruct (m_body m) eqn:Eb; try (destruct (Hcore _ D); apply Hsame; assumption).
+    + destruct D as [D|D]; [destruct (Hcore _ D); apply Hsame; assumption|].
+      destruct (eps_pop_pending_output_fields ack_frame s) as (_&_&_&_&_&F6&F7&_). eps_core_inj D.
+      apply Hsame; congruence.
+    + destruct D as [D|(t & D1 & D2)]; [destruct (Hcore _ D); apply Hsame; assumption|].
+      destruct (Hcore _ D2) as (Ep & Ed).
+      destruct (eps_on_checksum_report_effect _ _ _ _ _ D1) as (pcs & -> & L & Hc). fsimpl.
+      split; [exact Ed|]. split; [rewrite <- Ep; exact L|].
+      intros Hi (Hf & Hord) (Nd & Hb). unfold eps_pcs_ok, eps_interval in *. fsimpl. rewrite Ed. rewrite Ep in *.
+      destruct Hc as [(Hlt & ->)|(Hge & iv & span & lo & Hiv & E1 & E2 & ->)].
+      * split; [apply eps_nodup_ainsert; exact Nd|].
+        unfold ainsert. cbn [length]. pose proof (@eps_aremove_length Z frame (u_pending_checksums s)).
+        unfold MAX_CHECKSUM_HISTORY_SIZE in *. lia.
+      * assert (Eiv : iv = match u_desync s with Some i => i | None => 1 end).
+        { rewrite Ed in Hiv. destruct Hiv as [-> |(-> & _ & ->)]; reflexivity. }
+        rewrite <- Eiv in *. unfold EPS_MAX_INTERVAL, MAX_CHECKSUM_HISTORY_SIZE in *.
+        rewrite (eps_wrap_small iv) in E1 by (unfold TS_I32_MIN, TS_I32_MAX; lia).
+        rewrite (eps_i32_exact dbg ((32 - 1) * iv)) in E1 by (unfold TS_I32_MIN, TS_I32_MAX; lia).
+        assert (span = (32 - 1) * iv) by congruence. subst span. change ((32 - 1) * iv) with (31 * iv) in *.
+        rewrite (eps_i32_exact dbg (frame - 31 * iv)) in E2 by (unfold TS_I32_MIN, TS_I32_MAX in *; lia).
+        assert (lo = frame - 31 * iv) by congruence. subst lo.
+        set (l' := ainsert frame checksum (aretain_ge (frame - 31 * iv) (u_pending_checksums s))).
+        assert (Nd' : NoDup (eps_keys l')) by (apply eps_nodup_ainsert, eps_nodup_filter_keys; exact Nd).
+        split; [exact Nd'|].
+        assert (Hr : forall k, In k (eps_keys l') -> frame - 31 * iv <= k <= frame).
+        { intros k X. apply eps_keys_ainsert in X. destruct X as [->|X]; [lia|].
+          apply eps_keys_retain in X. destruct X as (X1 & X2). rewrite Forall_forall in Hord. specialize (Hord k X1). lia. }
+        pose proof (eps_nodup_range_length _ _ _ Nd' Hr) as P. rewrite eps_keys_length in P. lia.
+  - destruct (poll now nonce cs s) as [[evs t]| |] eqn:E; inversion H; subst; clear H.
+    apply eps_poll_effect in E. destruct E as (A & _). destruct (Hcore _ A). apply Hsame; assumption.
+  - destruct (send_input now inputs cs s) as [t| |] eqn:E; inversion H; subst; clear H.
+    apply eps_send_input_effect in E. destruct E as [(_ & ->)|(_ & _ & data & _ & A & _)]; [apply Hsame; reflexivity|].
+    eps_core_inj A. fsimpl. apply Hsame; assumption.
+  - inversion H; subst; clear H. apply Hsame; unfold disconnect; destruct (pstate_eqb (u_state s) PShutdown); reflexivity.
+  - inversion H; subst; clear H. apply Hsame; reflexivity.
+  - unfold update_local_frame_advantage in H.
+    destruct (ts_update_local_frame_advantage _ _ _ _ _ _); inversion H; subst. apply Hsame; reflexivity.
+  - inversion H; subst; clear H. apply Hsame; reflexivity.
+Qed.
+
+Lemma eps_pcs_run : forall dbg ops s s' evs,
+  run dbg s ops = Ok (s', evs) -> 1 <= eps_interval s <= EPS_MAX_INTERVAL ->
+  eps_reports_in_order dbg s ops -> eps_pcs_ok s -> eps_pcs_ok s' /\ eps_interval s' = eps_interval s.
+Proof.
+  induction ops as [|o r IH]; intros s s' evs H Hi Ho Hok.
+  - inversion H; subst. auto.
+  - apply eps_run_cons in H. destruct H as (s1 & e1 & e2 & H1 & H2 & _).
+    cbn [eps_reports_in_order] in Ho. destruct Ho as (Ho1 & Ho2). rewrite H1 in Ho2.
+    destruct (eps_pcs_step _ _ _ _ _ H1) as (A & _ & C).
+    assert (Ei : eps_interval s1 = eps_interval s) by (unfold eps_interval; rewrite A; reflexivity).
+    destruct (IH s1 s' e2 H2) as (X & Y); [rewrite Ei; exact Hi|exact Ho2|apply C; assumption|].
+    split; [exact X|congruence].
+Qed.
+
+Lemma eps_pending_checksums_bounded : forall now magic handles np lp mp timeout notify fps desync dbg ops s evs,
+  let s0 := ep_new now magic handles np lp mp timeout notify fps desync in
+  let interval := match desync with Some i => i | None => 1 end in
+  1 <= interval <= EPS_MAX_INTERVAL ->
+  eps_reports_in_order dbg s0 ops -> run dbg s0 ops = Ok (s, evs) ->
+  Z.of_nat (length (u_pending_checksums s)) <= Z.max MAX_CHECKSUM_HISTORY_SIZE (31 * interval + 1).
+Proof.
+  intros now magic handles np lp mp timeout notify fps desync dbg ops s evs s0 interval Hi Ho H.
+  destruct (eps_pcs_run dbg ops s0 s evs H) as ((_ & X) & Y); [exact Hi|exact Ho| |].
+  - split; [constructor|]. cbn. unfold MAX_CHECKSUM_HISTORY_SIZE. lia.
+  - rewrite Y in X. exact X.
+Qed.
+
+(* whatever arrives, one report adds at most one entry and nothing else adds any *)
+Lemma eps_pending_checksums_growth : forall dbg o s s' out, step dbg o s = Ok (s', out) ->
+  Z.of_nat (length (u_pending_checksums s')) <= Z.of_nat (length (u_pending_checksums s)) + 1.
+Proof. intros dbg o s s' out H. apply (eps_pcs_step _ _ _ _ _ H). Qed.
+
+(* forged by the authorized peer: 40 reports with strictly decreasing frames are all kept *)
+Definition eps_w_new_ds : ep := ep_new 0 9 [1] 2 1 8 2000 500 60 (Some 1).
+Definition eps_w_reports : list op :=
+  w_handshake ++ map (fun k => OMessage 0 200 (mkMsg 7 (ChecksumReport 7 (1000 - Z.of_nat k)))) (seq 0 40).
+Lemma eps_pending_checksums_unbounded_refuted :
+  exists s evs, run true eps_w_new_ds eps_w_reports = Ok (s, evs) /\ length (u_pending_checksums s) = 40%nat /\
+    (MAX_CHECKSUM_HISTORY_SIZE + 1 < 40).
+Proof. eexists. eexists. split; [vm_compute; reflexivity|]. split; vm_compute; reflexivity. Qed.
+
+(* ---------- the endpoint's event queue ---------- *)
+Lemma eps_event_queue_polled : forall dbg now nonce cs s s' out,
+  step dbg (OPoll now nonce cs) s = Ok (s', out) -> u_event_queue s' = [].
+Proof.
+  intros dbg now nonce cs s s' out H. eps_unstep H.
+  destruct (poll now nonce cs s) as [[evs t]| |] eqn:E; inversion H; subst. apply eps_poll_effect in E. tauto.
+Qed.
+
+(* ====================================================================================== *)
+(* C07 (timer half): silence                                                               *)
+(* ====================================================================================== *)
+(* what a sequence of polls at the given clock readings pushes while no packet is accepted:
+   [T] = last_recv_time, [n] / [e] = disconnect_notify_sent / disconnect_event_sent *)
+Fixpoint eps_silent_events (T ns to : Z) (n e : bool) (times : list Z) : list event :=
+  match times with
+  | [] => []
+  | now :: r =>
+    let i := negb n && negb e && (T + ns <? now) in
+    let d := negb e && (T + to <? now) in
+    (if i then [EvNetworkInterrupted (Z.max 0 (to - ns))] else []) ++ (if d then [EvDisconnected] else []) ++
+    eps_silent_events T ns to (n || i) (e || d) r
+  end.
+
+Definition eps_poll_ops (polls : list (Z * Z * list status)) : list op :=
+  map (fun p => OPoll (fst (fst p)) (snd (fst p)) (snd p)) polls.
+Definition eps_poll_times (polls : list (Z * Z * list status)) : list Z := map (fun p => fst (fst p)) polls.
+
+Lemma eps_silence_run : forall dbg polls s s' evs,
+  u_state s = PRunning -> run dbg s (eps_poll_ops polls) = Ok (s', evs) ->
+  evs = (match polls with [] => [] | _ => u_event_queue s end) ++
+        eps_silent_events (u_last_recv_time s) (u_notify_start s) (u_timeout s) (u_notify_sent s) (u_event_sent s)
+                          (eps_poll_times polls) /\
+  u_state s' = PRunning /\ u_last_recv_time s' = u_last_recv_time s /\
+  (polls <> [] -> u_event_queue s' = []).
+Proof.
+  induction polls as [|[[now nonce] cs] r IH]; intros s s' evs Hr H; cbn [eps_poll_ops eps_poll_times map] in *.
+  - inversion H; subst. cbn. repeat split; try assumption. intro X. congruence.
+  - apply eps_run_cons in H. destruct H as (s1 & e1 & e2 & H1 & H2 & ->). cbn [fst snd] in *.
+    eps_unstep H1. destruct (poll now nonce cs s) as [[out t]| |] eqn:E; inversion H1; subst; clear H1.
+    apply poll_effect in E. rewrite Hr in E. destruct E as (Q & NS & TO & L & _ & _ & S1 & _ & N1 & E1 & O1).
+    destruct (IH _ _ _ S1 H2) as (A & B & C & D). rewrite Q, NS, TO, L, N1, E1 in A.
+    split; [|split; [exact B|split; [congruence|]]].
+    + rewrite A, O1. unfold poll_pushed. cbn [eps_silent_events]. fold (interrupt_now now s). fold (timeout_now now s).
+      cbv zeta. unfold interrupt_now at 1 2, timeout_now at 1 2.
+      destruct r; cbn [app]; rewrite <- !app_assoc; reflexivity.
+    + intros _. destruct r as [|p r]; [inversion H2; subst; exact Q|apply D; discriminate].
+Qed.
+
+Definition eps_is_interrupted (e : event) : bool := match e with EvNetworkInterrupted _ => true | _ => false end.
+Definition eps_count_interrupted (evs : list event) : nat := length (filter eps_is_interrupted evs).
+
+(* at most one of each, whatever the clock does *)
+Lemma eps_silent_at_most_once : forall T ns to times n e,
+  (eps_count_interrupted (eps_silent_events T ns to n e times) <= (if n || e then 0 else 1))%nat /\
+  (count_disconnected (eps_silent_events T ns to n e times) <= (if e then 0 else 1))%nat.
+Proof.
+  induction times as [|now r IH]; intros n e; cbn [eps_silent_events].
+  - cbn. destruct (n || e), e; lia.
+  - cbv zeta. set (i := negb n && negb e && (T + ns <? now)). set (d := negb e && (T + to <? now)).
+    destruct (IH (n || i) (e || d)) as (A & B).
+    unfold eps_count_interrupted, count_disconnected in *. rewrite !filter_app, !app_length.
+    assert (Ei : (length (filter eps_is_interrupted (if i then [EvNetworkInterrupted (Z.max 0 (to - ns))] else []))
+                  = if i then 1 else 0)%nat) by (destruct i; reflexivity).
+    assert (Ed : (length (filter eps_is_interrupted (if d then [EvDisconnected] else [])) = 0)%nat) by (destruct d; reflexivity).
+    assert (Fi : (length (filter is_disconnected (if i then [EvNetworkInterrupted (Z.max 0 (to - ns))] else [])) = 0)%nat)
+      by (destruct i; reflexivity).
+    assert (Fd : (length (filter is_disconnected (if d then [EvDisconnected] else [])) = if d then 1 else 0)%nat)
+      by (destruct d; reflexivity).
+    rewrite Ei, Ed, Fi, Fd. clear Ei Ed Fi Fd.
+    assert (Hi : i = true -> n = false /\ e = false) by (subst i; destruct n, e; cbn; auto; discriminate).
+    assert (Hd : d = true -> e = false) by (subst d; destruct e; cbn; auto; discriminate).
+    clearbody i d. destruct i, d, n, e; cbn [orb] in *; try lia;
+      try (destruct (Hi eq_refl); discriminate); try (specialize (Hd eq_refl); discriminate).
+Qed.
+
+(* not earlier *)
+Lemma eps_silent_not_early : forall T ns to times n e,
+  (Forall (fun now => now <= T + ns) times ->
+   eps_count_interrupted (eps_silent_events T ns to n e times) = 0%nat) /\
+  (Forall (fun now => now <= T + to) times ->
+   count_disconnected (eps_silent_events T ns to n e times) = 0%nat).
+Proof.
+  induction times as [|now r IH]; intros n e; cbn [eps_silent_events]; [split; reflexivity|].
+  cbv zeta. unfold eps_count_interrupted, count_disconnected in *. split; intro F; inversion F; subst.
+  - assert ((T + ns <? now) = false) as -> by lia. rewrite andb_false_r. cbn [app].
+    rewrite filter_app, app_length. rewrite (proj1 (IH _ _)) by assumption.
+    destruct (negb e && (T + to <? now)); reflexivity.
+  - assert ((T + to <? now) = false) as -> by lia. rewrite andb_false_r. cbn [app].
+    rewrite filter_app, app_length. rewrite (proj2 (IH _ _)) by assumption.
+    destruct (negb n && negb e && (T + ns <? now)); reflexivity.
+Qed.
+
+Lemma eps_silent_app : forall T ns to a b n e,
+  exists n' e', eps_silent_events T ns to n e (a ++ b) =
+                eps_silent_events T ns to n e a ++ eps_silent_events T ns to n' e' b /\
+    (Forall (fun now => now <= T + ns /\ now <= T + to) a -> n' = n /\ e' = e) /\
+    (Forall (fun now => now <= T + to) a -> e' = e).
+Proof.
+  induction a as [|now r IH]; intros b n e; cbn [app eps_silent_events].
+  - exists n, e. split; [reflexivity|]. auto.
+  - cbv zeta. set (i := negb n && negb e && (T + ns <? now)). set (d := negb e && (T + to <? now)).
+    destruct (IH b (n || i) (e || d)) as (n' & e' & A & B & C). exists n', e'. split.
+    + rewrite A, <- !app_assoc. reflexivity.
+    + split; intro F; inversion F as [|? ? F1 F2]; subst.
+      * destruct (B F2) as (-> & ->). subst i d.
+        assert ((T + ns <? now) = false) as -> by lia. assert ((T + to <? now) = false) as -> by lia.
+        rewrite !andb_false_r, !orb_false_r. auto.
+      * rewrite (C F2). subst d. assert ((T + to <? now) = false) as -> by lia.
+        rewrite andb_false_r, orb_false_r. reflexivity.
+Qed.
+
+(* on time: the first poll past T + notify (no poll before it past T + notify or T + timeout) pushes exactly one
+   NetworkInterrupted with the remaining time, and nothing later pushes another *)
+Lemma eps_silent_interrupted_on_time : forall T ns to before now after,
+  Forall (fun t => t <= T + ns /\ t <= T + to) before -> T + ns < now ->
+  eps_silent_events T ns to false false (before ++ now :: after) =
+    EvNetworkInterrupted (Z.max 0 (to - ns)) ::
+    (if T + to <? now then [EvDisconnected] else []) ++
+    eps_silent_events T ns to true (T + to <? now) after /\
+  eps_count_interrupted (eps_silent_events T ns to true (T + to <? now) after) = 0%nat.
+Proof.
+  intros T ns to before now after F Hn.
+  destruct (eps_silent_app T ns to before (now :: after) false false) as (n' & e' & A & B & _).
+  destruct (B F) as (-> & ->). rewrite A.
+  assert (eps_silent_events T ns to false false before = []) as ->.
+  { clear A B. induction before as [|t r IH]; [reflexivity|]. inversion F as [|? ? F1 F2]; subst.
+    cbn [eps_silent_events]. cbv zeta. cbn [negb andb].
+    assert ((T + ns <? t) = false) as -> by lia. assert ((T + to <? t) = false) as -> by lia.
+    cbn [app orb]. apply IH. exact F2. }
+  cbn [app eps_silent_events]. cbv zeta. cbn [negb andb orb].
+  assert ((T + ns <? now) = true) as -> by lia. cbn [app]. split; [reflexivity|].
+  pose proof (eps_silent_at_most_once T ns to after true (T + to <? now)) as (X & _). cbn [orb] in X. lia.
+Qed.
+
+(* the first poll past T + timeout pushes Disconnected, nothing later pushes another *)
+Lemma eps_silent_disconnected_on_time : forall T ns to before now after n,
+  Forall (fun t => t <= T + to) before -> T + to < now ->
+  exists pre n', eps_silent_events T ns to n false (before ++ now :: after) =
+    pre ++ EvDisconnected :: eps_silent_events T ns to n' true after /\
+    count_disconnected pre = 0%nat /\
+    count_disconnected (eps_silent_events T ns to n' true after) = 0%nat /\
+    eps_count_interrupted (eps_silent_events T ns to n' true after) = 0%nat.
+Proof.
+  intros T ns to before now after n F Hn.
+  destruct (eps_silent_app T ns to before (now :: after) n false) as (n' & e' & A & _ & C).
+  rewrite (C F) in A. rewrite A. cbn [eps_silent_events]. cbv zeta. cbn [negb andb orb].
+  assert ((T + to <? now) = true) as -> by lia. cbn [app andb]. rewrite !andb_true_r.
+  set (i := negb n' && (T + ns <? now)).
+  exists (eps_silent_events T ns to n false before ++ (if i then [EvNetworkInterrupted (Z.max 0 (to - ns))] else [])), (n' || i).
+  split; [rewrite <- !app_assoc; reflexivity|]. split; [|split].
+  - rewrite cd_app. rewrite (proj2 (eps_silent_not_early T ns to before n false) F). destruct i; reflexivity.
+  - pose proof (eps_silent_at_most_once T ns to after (n' || i) true) as (_ & X). lia.
+  - pose proof (eps_silent_at_most_once T ns to after (n' || i) true) as (X & _). rewrite orb_true_r in X. lia.
+Qed.
+
+(* non-vacuity: silence from time 0 (handshake finished at 0), default timers *)
+Example eps_silence_example :
+  exists s evs, run true w_new (w_handshake ++ eps_poll_ops [(400, 0, w_status); (500, 0, w_status); (501, 0, w_status);
+                                      (1999, 0, w_status); (2000, 0, w_status); (2001, 0, w_status); (9000, 0, w_status)])
+                = Ok (s, evs) /\
+    skipn 5 evs = [EvNetworkInterrupted 1500; EvDisconnected].
+Proof. eexists. eexists. split; vm_compute; reflexivity. Qed.
+
+(* ---------- non-vacuity witnesses for props/C08.v, C18.v ---------- *)
+Example eps_undecodable_example :
+  exists s evs, run true w_new w_handshake = Ok (s, evs) /\ eps_wf s /\
+    alookup (eps_decode_frame s 0) (u_recv_inputs s) = Some [0;0;0;0]%N /\
+    Codec.decode true [0;0;0;0]%N [128]%N = Err /\
+    passes_filters s (mkMsg 7 (Input w_status false 0 (-1) [128]%N)) = true.
+Proof. eexists. eexists. split; [vm_compute; reflexivity|]. repeat split; vm_compute; reflexivity. Qed.
+
+(* a wrong-size frame after a good one: the good frame is delivered, no ack *)
+Example eps_wrong_size_example :
+  exists s evs, run true w_new (w_handshake ++
+      [OMessage 0 200 (mkMsg 7 (Input w_status false 0 (-1) (Codec.encode [0;0;0;0]%N [[1;0;0;0]%N; [7;7;7]%N])));
+       OPoll 0 200 w_status]) = Ok (s, evs) /\
+    skipn 5 evs = [EvInput 0 1 1] /\ last_recv_frame s = 0 /\
+    Forall (fun m => match m_body m with InputAck _ => False | _ => True end) (u_send_queue s).
+Proof.
+  eexists. eexists. split; [vm_compute; reflexivity|]. split; [vm_compute; reflexivity|].
+  split; [vm_compute; reflexivity|]. vm_compute. repeat constructor.
+Qed.
+
+(* 129 unacknowledged inputs: Disconnected raised; after `disconnect` the buffer no longer grows *)
+Example eps_pending_output_example :
+  exists s evs, run true w_new (w_handshake ++ w_sends 0 129 ++ [OPoll 0 200 w_status; ODisconnect 0] ++ w_sends 0 5)
+                = Ok (s, evs) /\
+    length (u_pending_output s) = 129%nat /\ count_disconnected evs = 1%nat.
+Proof. eexists. eexists. split; [vm_compute; reflexivity|]. split; vm_compute; reflexivity. Qed.
